@@ -50,11 +50,11 @@ m = {
     },
     "engines": [
         {"name": "findfacts", "path": "driver/", "serves_properties": [c["property_id"] for c in checks], "kind_free_text": "rustc_private driver dumping type-checked MIR (opt-level 0), ADTs, impls of all workspace crates as JSON facts"},
-        {"name": "sa", "path": "sa/", "serves_properties": [c["property_id"] for c in checks], "kind_free_text": "Python analysis library (CFG, dominators, call graph, origins, event graphs, dispatch tables) + one rule module per property"},
+        {"name": "sa", "path": "sa/", "serves_properties": [c["property_id"] for c in checks], "kind_free_text": "Python analysis library over the MIR facts: model normalisation (renamed functions/fields mapped to the reference inventory, new helpers spliced into their callers, optional second normal form with Option/Result combinators written out), CFG, dominators, call graph, origin/provenance trees, guards in normal form, event graphs, dispatch tables, format-template decoder, zone (difference-bound) abstract interpreter, panic audit; one rule module per property"},
     ],
     "checks": checks,
     "not_applicable": na,
-    "notes": "All checks are static: they read /repo's current working tree through the compiler and never run find/xargs or the test-suite. `thorough` adds the rule-sensitivity self-test (mutant corpus + independently seeded changes applied to scratch copies).",
+    "notes": "All checks are static: they read /repo's current working tree through the compiler and never run find/xargs or the test-suite. `thorough` adds the sensitivity self-test on scratch copies of the current tree: 100 independently seeded breaking changes and the reverse of every fix commit must be reported, six behaviour-preserving refactorings must stay silent (results go into the evidence as rule_sensitivity; never a property verdict).",
 }
 json.dump(m, open(os.path.join(HERE, "MANIFEST.json"), "w"), indent=1)
 print("claimed:", [c["property_id"] for c in checks], "not applicable:", [n["property_id"] for n in na])
